@@ -182,9 +182,11 @@ def run(ctx):
     cases = res.emitted
     # long station ids on the location-like axes: always part of the quick tier, in every output variant
     long_ids = [o for o in cases if max(o["inputs"][0]["locs"]) > 10000 and o["axis"] in ("location", "lat", "elev") and o["metric"] in ("mae", "obs")]
+    # the first and the last week of 2012 in one table: always part of the quick tier
+    year_end = [o for o in cases if 1356994800 in o["inputs"][0]["times"] and o["axis"] in ("week", "month", "year", "day", "time") and o["metric"] in ("mae", "obs")]
     if ctx.tier == "quick":
         cases = rng.sample(cases, min(len(cases), 320))
-        cases += [o for o in long_ids if o not in cases]
+        cases += [o for o in long_ids + year_end if o not in cases]
         with_cond = [o for o in res.emitted if o.get("cond")]
         cases += [o for o in rng.sample(with_cond, min(len(with_cond), 12)) if o not in cases]
     jobs = [(o, (rng.sample(all_combos, 3) if (ctx.tier == "quick" and o not in long_ids) else all_combos)) for o in cases]
